@@ -48,6 +48,8 @@ pub struct Disk {
     pub disconnects: Vec<u64>,
     pub events: Vec<String>,
     pub api_calls: Vec<(u8, Vec<u8>, u32, PeerIndex)>,
+    /// number of coming fetch_block_from_peer calls that answer Err (the request is still recorded)
+    pub fail_fetches: u32,
 }
 
 #[derive(Clone, Debug)]
@@ -86,11 +88,12 @@ impl InterfaceIO for MemIo {
         url: &str,
         block_id: BlockId,
     ) -> Result<(), Error> {
-        self.disk
-            .lock()
-            .unwrap()
-            .fetches
-            .push((block_hash, peer_index, url.to_string(), block_id));
+        let mut d = self.disk.lock().unwrap();
+        d.fetches.push((block_hash, peer_index, url.to_string(), block_id));
+        if d.fail_fetches > 0 {
+            d.fail_fetches -= 1;
+            return Err(Error::new(ErrorKind::Other, "fetch could not be started"));
+        }
         Ok(())
     }
     async fn write_value(&self, key: &str, value: &[u8]) -> Result<(), Error> {
